@@ -314,6 +314,20 @@ theorem sig_rules_as_modelled : sigRules = [
     ⟨"EthAddressFromSignature", "65", ["27", "28"], "27", "signaturePrefix", "addr != ethAddress"⟩,
     ⟨"TronAddressFromSignature", "65", ["27", "28"], "27", "tronSignaturePrefix", "addr != ethAddress"⟩] := by decide
 
+/-- "submitted by that oracle's bridger", transaction level: the account that must have signed a transaction carrying a
+confirm message is the message's `bridger_address` (proto signer option, enforced by the SDK ante handler), and the
+handler accepts only if that `bridger_address` is the bridger of the oracle record (`confirm_accept_iff`: `r.bridger =
+m.bridger`) -/
+theorem confirm_signer_is_bridger_field :
+    confirmSigners = [("MsgOracleSetConfirm", "bridger_address"), ("MsgConfirmBatch", "bridger_address"),
+      ("MsgBridgeCallConfirm", "bridger_address"), ("MsgConfirm", "bridger_address")] := by decide
+
+/-- the `MsgConfirm` wrapper (signer = the WRAPPER's bridger_address, inner bridger never compared: `wrapperGuards`) is
+not deliverable as a transaction in this snapshot — it has no `UnpackInterfaces`, so `MsgServer.Confirm` finds no cached
+value and rejects.  If either fact changes this obligation stops checking and the harness's transaction stream shows
+whether a stranger's transaction can now store a confirmation. -/
+theorem msgconfirm_wrapper_latent : msgConfirmUnpacks = false ∧ wrapperGuards = ["if !ok"] := by decide
+
 /-! ## 6. end to end: a stored confirmation is a signature over the digest the contract recomputes for the object it
 names, and over no other object, nonce or chain id -/
 
@@ -439,5 +453,38 @@ example :
     errOf (confirmStep exRecover (run exRecover {} (exOps.take 3)) ⟨.oracleSet 7, "bridgerY", "0xExt", some [8]⟩) = some .badSig ∧
     errOf (confirmStep exRecover (run exRecover {} (exOps.take 3)) ⟨.oracleSet 7, "bridgerY", "0xExt", some [9]⟩) = none := by
   decide
+
+/-- pruning: after the oracle confirmed, a site that deletes object and confirmations leaves nothing under the key, a
+later confirm for the pruned object is `notFound`; a site that deletes only the object (batch cancel) keeps the entry -/
+example :
+    (run exRecover {} (exOps ++ [.removeObject (.oracleSet 7) true true])).confirms.length = 0 ∧
+    errOf (confirmStep exRecover (run exRecover {} (exOps ++ [.removeObject (.oracleSet 7) true true]))
+      ⟨.oracleSet 7, "bridgerY", "0xExt", some [9]⟩) = some .notFound ∧
+    (run exRecover {} (exOps ++ [.removeObject (.oracleSet 7) true false])).confirms.length = 1 ∧
+    (run exRecover {} (exOps ++ [.removeObject (.oracleSet 7) true false, .addObject (.oracleSet 7) [4]])).objects.length = 0 := by
+  decide
+
+/-- the plan-driven handler on a batch: the confirm naming (tokB, 7) while only (tokA, 7) is stored is `notFound`; a
+plan with a nonce-only fallback lookup (not the source's plan) would accept it and file it under (tokB, 7) -/
+private def exBatchSt : HState :=
+  run exRecover {} [.addObject (.batch "tokA" 7) [1, 2, 3], .setOracle 1 ⟨"bridgerY", "0xExt"⟩, .setIndex "0xExt" 1]
+
+private def loosePlan : Plan :=
+  { planFor (.batch "" 0) with lookups := (planFor (.batch "" 0)).lookups ++ [⟨"GetOutgoingTxBatchByNonce", "scan", [("nonce", "msg.Nonce")]⟩] }
+
+example :
+    errOf (confirmStepG exRecover exBatchSt ⟨.batch "tokB" 7, "bridgerY", "0xExt", some [9]⟩) = some .notFound ∧
+    errOf (confirmStepG exRecover exBatchSt ⟨.batch "tokA" 7, "bridgerY", "0xExt", some [9]⟩) = none ∧
+    planExact loosePlan = false ∧
+    (match confirmStepP loosePlan exRecover exBatchSt ⟨.batch "tokB" 7, "bridgerY", "0xExt", some [9]⟩ with
+      | .ok st' => st'.confirms.map (·.key) | .error _ => []) = [.batch "tokB" 7] := by
+  decide
+
+/-- the end-to-end theorems are not vacuous: a typed run in which a confirmation gets stored -/
+example : ∃ e, e ∈ (run (fun _ s => if s == [9] then some "0xExt" else none) {}
+    ([TOp.store "" (.oset ⟨7, []⟩), .other (.setOracle 1 ⟨"bridgerY", "0xExt"⟩), .other (.setIndex "0xExt" 1),
+      .other (.confirm ⟨.oracleSet 7, "bridgerY", "0xExt", some [9]⟩)].map (TOp.toOp id 5))).confirms := by
+  refine ⟨⟨.oracleSet 7, 1, "bridgerY", "0xExt", [9], digestOf id 5 (.oset ⟨7, []⟩), ⟨"bridgerY", "0xExt"⟩⟩, ?_⟩
+  simp [run, step, stepOther, TOp.toOp, keyOf, confirmStep, hasConfirm, upsert, List.lookup]
 
 end FxVerif.Props.C12
